@@ -5,7 +5,7 @@ import subprocess
 import z3
 
 from vf import driver, cfront
-from contracts.py import constexpr
+from contracts.py import constexpr, preproc
 
 PID = 'C30'
 
@@ -39,6 +39,11 @@ def concretise(ob, model):
     tok = model.get('token')
     if isinstance(tok, str) and tok and '\n' not in tok:
         decls += ["int a[%s];" % tok, "enum e { A = %s };" % tok]
+    src = model.get('csource')
+    if isinstance(src, str) and src:
+        decls += [src]
+    decls += ['extern "Python"', 'extern "Python" ', 'int g(int);\nextern "Python+C"\n', 'extern "C + Python"   \n\t',
+              'extern "Python" {', 'extern "Python" int f(int)']
     decls += ["int a[0x1p3];", "enum e { A = 0x1.p3 };", "struct s { int a:0X1P2; };", "int a[0x.8p1];", "int a[1.5e3];",
               "#define X 08\n", "#define X abc\n", "#define X 0xg\n", "static const int X = 09;"]
     return REPLAY % dict(decls=decls)
@@ -71,7 +76,7 @@ def macros_bounded(rep, tu):
 
 def main(tier, seed):
     return driver.run_property(
-        PID, tier, seed, py_items=constexpr.c30_items(), concretise=concretise, extra=macros_bounded,
+        PID, tier, seed, py_items=constexpr.c30_items() + preproc.items(), concretise=concretise, extra=macros_bounded,
         trusted=["scope of the proved part: the constant-expression evaluator Parser._parse_constant/_c_div (every "
                  "AST node class and operator): no built-in operation in it can raise anything but cffi's error "
                  "classes; recursive calls through the function's own contract",
